@@ -20,8 +20,8 @@ def jVal (a : Array Json) (i : Nat) : R (Val Int) := do
 def dokStateJ (d : DOK Int) : Json :=
   Json.mkObj [("keys", listJ (listJ intJ) (d.entries.map (·.1))), ("vals", listJ intJ (d.entries.map (·.2)))]
 
-/-- one step of a history: model result, model state after it, whether the op lies in a known
-region, and the dense specification's result listed over all in-range keys -/
+/-- one step of a history: model result, model state after it, whether the op lies in the grammar of the
+property, and the dense specification's result listed over all in-range keys -/
 def dokStep (d : DOK Int) (a : Spec.Dense Int) (j : Json) : R (DOK Int × Spec.Dense Int × Json) := do
   let o ← j.getArr?
   let tag ← (← arg o 0).getStr?
@@ -33,9 +33,9 @@ def dokStep (d : DOK Int) (a : Spec.Dense Int) (j : Json) : R (DOK Int × Spec.D
       | .ok a' => (a', okJ (listJ intJ ((allKeys d.shape).map a')))
       | .error e => (a, errJ e)
     pure (d', a', Json.mkObj [("model", mj), ("spec", sj), ("nnz", natJ (nnz d')),
-      ("wf", Json.bool (Spec.WFOp d.shape op)), ("excluded", Json.bool (Spec.Excluded d.shape op))])
+      ("wf", Json.bool (Spec.WFOp d.shape op))])
   match tag with
-  | "set" => fin (.set (← jBool (← arg o 1)) (← jList jKeyPart (← arg o 2)) (← jVal o 3))
+  | "set" => fin (.set (← jList jKeyPart (← arg o 1)) (← jVal o 2))
   | "fancy" => fin (.fancy (← jList (jList jInt) (← arg o 1)) (← jVal o 2))
   | "mask" => fin (.mask (← jList jBool (← arg o 1)) (← jVal o 2))
   | "get" =>
@@ -72,10 +72,6 @@ def c12 (op : String) (a : Array Json) : R (Option Json) := do
     pure (some (match r.2 with
       | none => okJ st
       | some e => Json.mkObj [("err", Json.str e.name), ("state", st)]))
-  | "dok_excluded_slice" =>
-    let st ← jOpt jInt (← arg a 1); let sp ← jOpt jInt (← arg a 2); let se ← jOpt jInt (← arg a 3)
-    let dim ← jNat (← arg a 4)
-    pure (some (okJ (Json.bool (Spec.ExcludedSlice st sp se dim))))
   | _ => pure none
 
 end DriverOps
